@@ -99,11 +99,13 @@ theorem long_initial_ne_empty (ns did did' initial : String) (req : Json) (size 
       · cases h
       · rename_i c hc
         split at h
-        · simp only [ParsedDID.long.injEq] at h
-          obtain ⟨_, hi, _, _⟩ := h
-          rw [hi, e] at hc
-          rw [parseInitialState_empty] at hc
-          cases hc
+        · split at h
+          · simp only [ParsedDID.long.injEq] at h
+            obtain ⟨_, hi, _, _⟩ := h
+            rw [hi, e] at hc
+            rw [parseInitialState_empty] at hc
+            cases hc
+          · cases h
         · cases h
 
 /-- **what offline resolution reports**: the result's method metadata carries the recovery
